@@ -12,13 +12,15 @@ def sh(*a, **k): return subprocess.run(a, stdout=subprocess.PIPE, stderr=subproc
 sh("git", "-C", "/repo", "worktree", "remove", "--force", WT)
 r = sh("git", "-C", "/repo", "worktree", "add", "-f", "--detach", WT, "HEAD")
 if r.returncode: print(r.stdout); sys.exit(2)
-want = sys.argv[1:]
+want = [a for a in sys.argv[1:] if not a.startswith('--')]
 res = []
 try:
     for d in sorted(glob.glob(os.path.join(VERIF, "seeded", "*"))):
         mid = os.path.basename(d)
         if want and not any(mid.startswith(w) for w in want): continue
         meta = json.load(open(os.path.join(d, "meta.json")))
+        if meta.get("tier_needed") == "thorough" and "--thorough" not in sys.argv:
+            print((mid, "skipped (caught by the thorough tier only)", "")); continue
         sh("git", "-C", WT, "checkout", "--", ".")
         a = sh("git", "-C", WT, "apply", os.path.join(d, "patch.diff"))
         if a.returncode:
